@@ -505,11 +505,9 @@ fn replay_text(prop: &str, kind: &str, model: &ArrDesc, stream: &Stream, detail:
 
 pub fn random_model(rng: &mut Rng) -> ArrDesc {
     let period = rng.range(1, 40);
-    let mut sw = crate::gen::ArrSwarm::random(rng);
-    sw.weights[3] = 0; // ExtrapolatingCurve belongs to C13
-    if sw.weights.iter().sum::<u64>() == 0 {
-        sw.weights[1] = 1;
-    }
+    let sw = crate::gen::ArrSwarm::random(rng);
+    // ExtrapolatingCurve (caching; decided in depth by C13) takes part here with the process
+    // "sequences respecting the given delta-min prefix"
     let m = crate::gen::random_arrival(rng, period.max(2), &sw);
     if rng.chance(1, 50) {
         ArrDesc::Never
@@ -522,17 +520,47 @@ pub fn random_model(rng: &mut Rng) -> ArrDesc {
     }
 }
 
-fn strip_extrap(m: &ArrDesc) -> ArrDesc {
+/// Does the model contain a caching (history-dependent) component?
+pub fn has_extrap(m: &ArrDesc) -> bool {
     match m {
-        ArrDesc::Extrap(v) => ArrDesc::Curve(v.clone()),
-        ArrDesc::Jittered(a, j) => ArrDesc::Jittered(Box::new(strip_extrap(a)), *j),
-        ArrDesc::Propagated(a, j) => ArrDesc::Propagated(Box::new(strip_extrap(a)), *j),
-        ArrDesc::Vec(v) => ArrDesc::Vec(v.iter().map(strip_extrap).collect()),
-        ArrDesc::Slice(v) => ArrDesc::Slice(v.iter().map(strip_extrap).collect()),
-        ArrDesc::SumOf(a, b) => ArrDesc::SumOf(Box::new(strip_extrap(a)), Box::new(strip_extrap(b))),
-        ArrDesc::Rc(a) => ArrDesc::Rc(Box::new(strip_extrap(a))),
-        other => other.clone(),
+        ArrDesc::Extrap(_) => true,
+        ArrDesc::Jittered(a, _) | ArrDesc::Propagated(a, _) | ArrDesc::Rc(a) => has_extrap(a),
+        ArrDesc::Vec(v) | ArrDesc::Slice(v) => v.iter().any(has_extrap),
+        ArrDesc::SumOf(a, b) => has_extrap(a) || has_extrap(b),
+        _ => false,
     }
+}
+
+/// Windows `[t_i, t_j]` queried in the given order on one (fresh) object; first overfull one.
+pub fn first_overfull_in_order(
+    ab: &dyn ArrivalBound,
+    ev: &[u64],
+    order: &[(usize, usize)],
+) -> Option<(usize, usize, usize)> {
+    for (i, j) in order {
+        let (i, j) = (*i, *j);
+        if i > j || j >= ev.len() {
+            continue;
+        }
+        let allowed = ab.number_arrivals(d(ev[j] - ev[i] + 1));
+        if j - i + 1 > allowed {
+            return Some((i, j, allowed));
+        }
+    }
+    None
+}
+
+fn order_text(order: &[(usize, usize)]) -> String {
+    order.iter().map(|(i, j)| format!("{}:{}", i, j)).collect::<Vec<_>>().join(";")
+}
+
+fn parse_order(text: &str) -> Option<Vec<(usize, usize)>> {
+    let mut v = Vec::new();
+    for part in text.split(';') {
+        let (a, b) = part.trim().split_once(':')?;
+        v.push((a.parse().ok()?, b.parse().ok()?));
+    }
+    Some(v)
 }
 
 pub fn minimise_stream(model: &ArrDesc, stream: &Stream, fails: &dyn Fn(&Stream) -> bool) -> Stream {
@@ -592,7 +620,8 @@ fn fp_of(model: &ArrDesc, ev: &[u64]) -> u64 {
 
 pub fn c10_item(sh: &StreamShared, k: u64, acc: &mut Acc, note: &dyn Fn(&str)) {
     let mut rng = Rng::new(Rng::run_seed(sh.root, "C10", k));
-    let model = strip_extrap(&random_model(&mut rng.split("model")));
+    let model = random_model(&mut rng.split("model"));
+    let caching = has_extrap(&model);
     note(&format!("C10 model#{} {}", k, model));
     acc.counters.inc("models");
     match &model {
@@ -605,7 +634,10 @@ pub fn c10_item(sh: &StreamShared, k: u64, acc: &mut Acc, note: &dyn Fn(&str)) {
         ArrDesc::Vec(_) | ArrDesc::Slice(_) | ArrDesc::SumOf(..) => acc.counters.inc("model.superposition"),
         ArrDesc::Rc(_) => acc.counters.inc("model.rc"),
         ArrDesc::Never => acc.counters.inc("model.never"),
-        ArrDesc::Extrap(_) => {}
+        ArrDesc::Extrap(_) => acc.counters.inc("model.extrapolating_curve"),
+    }
+    if caching {
+        acc.counters.inc("models_with_caching_component");
     }
     let horizon = rng.range(60, 600);
     let scan = horizon + 80;
@@ -615,9 +647,9 @@ pub fn c10_item(sh: &StreamShared, k: u64, acc: &mut Acc, note: &dyn Fn(&str)) {
     let m2 = model.clone();
     let tab = guarded(move || {
         let ab = m2.build();
-        let eta: Vec<usize> = (0..=scan).map(|x| ab.number_arrivals(d(x))).collect();
         let two = ab.clone_with_jitter(d(ja)).clone_with_jitter(d(jb));
         let one = ab.clone_with_jitter(d(ja + jb));
+        let eta: Vec<usize> = (0..=scan).map(|x| ab.number_arrivals(d(x))).collect();
         let e2: Vec<usize> = (0..=scan).map(|x| two.number_arrivals(d(x))).collect();
         let e1: Vec<usize> = (0..=scan).map(|x| one.number_arrivals(d(x))).collect();
         (eta, e2, e1)
@@ -712,7 +744,53 @@ pub fn c10_item(sh: &StreamShared, k: u64, acc: &mut Acc, note: &dyn Fn(&str)) {
             acc.counters.inc("runs_nontrivial");
         }
         acc.counters.add("windows_checked", (ev.len() * (ev.len() + 1) / 2) as u64);
-        let res = guarded(|| first_overfull_window(&*built, &ev));
+        // caching models: every stream is scanned on a fresh object (so that a replay file, which
+        // starts from a fresh object too, sees the same query history), and a second fresh object
+        // answers a handful of windows in random order (large jumps between consecutive queries)
+        let fresh;
+        let scan_on: &dyn ArrivalBound = if caching {
+            fresh = model.build();
+            &*fresh
+        } else {
+            &*built
+        };
+        if caching && ev.len() >= 2 {
+            let mut orng = srng.split("order");
+            let mut order: Vec<(usize, usize)> = Vec::new();
+            for _ in 0..orng.range(2, 12) {
+                let i = orng.index(ev.len());
+                let j = i + orng.index(ev.len() - i);
+                order.push((i, j));
+            }
+            acc.counters.inc("fault.queries_in_random_order");
+            let probe = model.build();
+            let res = guarded(|| first_overfull_in_order(&*probe, &ev, &order));
+            let failure = match res {
+                None => Some("number_arrivals panicked".to_string()),
+                Some(Some((i, j, allowed))) => Some(format!(
+                    "after the queries {} the admissible stream has {} events in [{}, {}] (length {}) but number_arrivals says {}",
+                    order_text(&order), j - i + 1, ev[i], ev[j], ev[j] - ev[i] + 1, allowed
+                )),
+                Some(None) => None,
+            };
+            if let Some(why) = failure {
+                acc.report(Report {
+                    order: (k, 10 + sidx),
+                    key: format!("{} undercounts", model.kind_name()),
+                    summary: format!("{}: {}", model, why),
+                    replay: replay_text(
+                        "C10",
+                        "order",
+                        &model,
+                        &stream,
+                        &format!("queries={}", order_text(&order)),
+                        &format!("seed={} model={} stream={}", sh.root, k, sidx),
+                    ),
+                });
+                break;
+            }
+        }
+        let res = guarded(|| first_overfull_window(scan_on, &ev));
         match res {
             None => {
                 acc.report(Report {
@@ -824,7 +902,7 @@ pub fn run_c10(opt: &Options) -> i32 {
         cov.set(
             "components",
             components_json(
-                &["response_time_analysis::arrival::{Periodic, Sporadic, Curve, ArrivalCurvePrefix, Propagated, Never, Vec<_>, sum_of, Rc<_>}::number_arrivals and clone_with_jitter (real)"],
+                &["response_time_analysis::arrival::{Periodic, Sporadic, Curve, ExtrapolatingCurve, ArrivalCurvePrefix, Propagated, Never, Vec<_>, sum_of, Rc<_>}::number_arrivals and clone_with_jitter (real)"],
                 &["event sources for every documented process, delay injector, stream merger (stubs, sim/src/streams.rs)"],
             ),
         );
@@ -908,6 +986,43 @@ pub fn replay_stream(path: &str, text: &str) -> i32 {
         1
     };
     match kind.as_str() {
+        "order" => {
+            let stream = match get_line(text, "stream ").ok_or("no stream".to_string()).and_then(|m| parse_stream(&m)) {
+                Ok(m) => m,
+                Err(e) => {
+                    eprintln!("HARNESS-ERROR: {}", e);
+                    return 2;
+                }
+            };
+            if let Err(e) = stream_admissible(&model, &stream) {
+                eprintln!("HARNESS-ERROR: stream in replay file is not admissible for {}: {}", model, e);
+                return 2;
+            }
+            let order = match expect.strip_prefix("queries=").and_then(parse_order) {
+                Some(o) => o,
+                None => {
+                    eprintln!("HARNESS-ERROR: bad query order");
+                    return 2;
+                }
+            };
+            let ev = stream.events();
+            let m = model.clone();
+            let evc = ev.clone();
+            match guarded(move || {
+                let ab = m.build();
+                first_overfull_in_order(&*ab, &evc, &order)
+            }) {
+                None => viol(format!("{}: number_arrivals panicked", model)),
+                Some(Some((i, j, allowed))) => viol(format!(
+                    "{}: {} events in [{}, {}] but number_arrivals({}) = {}",
+                    model, j - i + 1, ev[i], ev[j], ev[j] - ev[i] + 1, allowed
+                )),
+                Some(None) => {
+                    println!("replay: no violation");
+                    0
+                }
+            }
+        }
         "window" | "attain" => {
             let stream = match get_line(text, "stream ").ok_or("no stream".to_string()).and_then(|m| parse_stream(&m)) {
                 Ok(m) => m,
@@ -986,17 +1101,20 @@ pub fn replay_stream(path: &str, text: &str) -> i32 {
                 let ab = m.build();
                 let two = ab.clone_with_jitter(d(ja)).clone_with_jitter(d(jb));
                 let one = ab.clone_with_jitter(d(ja + jb));
-                let mut prev = 0usize;
-                if ab.number_arrivals(d(0)) != 0 {
+                // same order of queries as the run (caching models are history-dependent)
+                let eta: Vec<usize> = (0..=scan).map(|x| ab.number_arrivals(d(x))).collect();
+                let e2: Vec<usize> = (0..=scan).map(|x| two.number_arrivals(d(x))).collect();
+                let e1: Vec<usize> = (0..=scan).map(|x| one.number_arrivals(d(x))).collect();
+                if eta[0] != 0 {
                     return Some("number_arrivals(0) != 0".to_string());
                 }
-                for x in 0..=scan {
-                    let n = ab.number_arrivals(d(x));
-                    if n < prev {
+                for x in 1..eta.len() {
+                    if eta[x] < eta[x - 1] {
                         return Some(format!("number_arrivals decreases at {}", x));
                     }
-                    prev = n;
-                    if two.number_arrivals(d(x)) != one.number_arrivals(d(x)) {
+                }
+                for x in 0..eta.len() {
+                    if e2[x] != e1[x] {
                         return Some(format!("jitter {} then {} differs from {} at delta={}", ja, jb, ja + jb, x));
                     }
                 }
